@@ -1,4 +1,5 @@
 import ZV.Proofs.C04
+import ZV.Proofs.C04Steps
 /-!
   C04 — certificate issuance round-trips through parsing: theorems about the model of `buildExtensions`
   and of the matching arms of `parseCertificate` (`ZV.Model.C04`), which T2 ties to the Go code by comparing,
@@ -39,11 +40,10 @@ theorem ext_roundtrip_aki (id : Bytes) (h : id.length < 2147483000) : parseAKI (
   rw [this]
   rfl
 
-set_option maxRecDepth 1000000 in
-/-- kernel-evaluated exhaustive check over the whole 9-bit domain -/
+/-- kernel-evaluated exhaustive check over the whole 9-bit domain (evaluated once, in `ZV.Proofs.C04KU`) -/
 theorem keyusage_all :
-    (List.range 512).all (fun ku => ku == 0 || decide (parseKeyUsage (buildKeyUsage ku) = .ok ku)) = true := by
-  decide
+    (List.range 512).all (fun ku => ku == 0 || decide (parseKeyUsage (buildKeyUsage ku) = .ok ku)) = true :=
+  keyusage_all_eval
 
 /-- KeyUsage: for EVERY key usage value in the 9-bit domain (1..511) the trimmed BIT STRING parses back to
     the same nine bits (exhaustive over the finite domain). -/
@@ -68,24 +68,32 @@ theorem basic_constraints_all :
         = .ok (ca, effectiveMaxPathLen ((n : Int) - 1) z))))) = true := by
   decide
 
--- FULL: ∀ isCA zero (mpl : Int), -1 ≤ mpl → mpl < 2^63 →
---         parseBasicConstraints (buildBasicConstraints isCA mpl zero) = .ok (isCA, effectiveMaxPathLen mpl zero)
--- (missing: the general INTEGER encode/decode lemma `parseInt64 (encInt m) = ok m`; proved below exhaustively for
---  every path length -1..130, which spans the one-/two-octet INTEGER boundary at 127/128.)
-/-- BasicConstraints: `parse (build isCA mpl zero) = (isCA, effective mpl)` where "unset" (0 without
-    `MaxPathLenZero`) comes back as -1 — for all flags and every path length in -1..130. -/
-theorem ext_roundtrip_basic_constraints_partial (ca z : Bool) (mpl : Int) (h0 : -1 ≤ mpl) (h1 : mpl ≤ 130) :
-    parseBasicConstraints (buildBasicConstraints ca mpl z) = .ok (ca, effectiveMaxPathLen mpl z) := by
-  have h := basic_constraints_all
-  rw [List.all_eq_true] at h
-  have hn := h (mpl + 1).toNat (List.mem_range.mpr (by omega))
-  rw [List.all_eq_true] at hn
-  have hc := hn ca (by cases ca <;> simp)
-  rw [List.all_eq_true] at hc
-  have hz := hc z (by cases z <;> simp)
-  have e : (((mpl + 1).toNat : Nat) : Int) - 1 = mpl := by omega
-  rw [e] at hz
-  simpa using hz
+/-- **DER INTEGER (int64)**: `parseInt64 (encInt v) = v` for every 64-bit `v` — `encInt` writes the minimal
+    two's-complement octets (`checkInteger` accepts them) and at most eight of them.  (General lemma for any width:
+    `ZV.C04.int_roundtrip`, on `ZV.Der.int_decode`.) -/
+theorem int64_roundtrip (v : Int) (h1 : -9223372036854775808 ≤ v) (h2 : v ≤ 9223372036854775807) :
+    parseInt64 (encInt v) = .ok v ∧ checkInteger (encInt v) = true ∧ (encInt v).length ≤ 8 := by
+  have h := parseInt64_encInt v h1 h2
+  have h' := h
+  unfold parseInt64 at h'
+  cases hc : checkInteger (encInt v) with
+  | false => simp [hc] at h'
+  | true =>
+    refine ⟨h, rfl, ?_⟩
+    apply Decidable.byContradiction
+    intro hl
+    have hl' : (encInt v).length > 8 := by omega
+    simp [hc, hl'] at h'
+
+/-- **BasicConstraints, full**: `parse (build isCA mpl zero) = (isCA, effective mpl)` where "unset" (0 without
+    `MaxPathLenZero`) comes back as -1 — for both flags and EVERY `MaxPathLen` a Go `int` can hold (the builder has no
+    range check: negative values below -1 are written as negative INTEGERs and come back unchanged). -/
+theorem ext_roundtrip_basic_constraints (ca z : Bool) (mpl : Int)
+    (h0 : -9223372036854775808 ≤ mpl) (h1 : mpl ≤ 9223372036854775807) :
+    parseBasicConstraints (buildBasicConstraints ca mpl z) = .ok (ca, effectiveMaxPathLen mpl z) :=
+  parseBasicConstraints_build ca z mpl h0 h1
+
+example : (-9223372036854775808 : Int) ≤ 1000000 ∧ (1000000 : Int) ≤ 9223372036854775807 := by decide
 
 /-- ExtraExtensions override rule: the result is `generated ++ ExtraExtensions`, in that order, and no generated
     extension carries an OID that occurs in `ExtraExtensions`. -/
@@ -107,5 +115,148 @@ theorem extra_override (tbl : List (Nat × List Nat)) (t : Tmpl) (exts : List Ex
         (subst hr; have := gen_mem e g hm; rw [this.1]; exact this.2)
     · cases h
     · cases h
+
+/-! ### OBJECT IDENTIFIER contents -/
+
+/-- what `marshalObjectIdentifier` writes is accepted by `parseObjectIdentifier`, for every OID whose
+    sub-identifiers (first two arcs merged) do not exceed MaxInt32. -/
+theorem oid_contents_valid (o : List Nat) (c : Bytes) (h : encOID o = some c) (hok : oidOk o = true) :
+    validOID c = true := validOID_encOID h hok
+
+/-- `decode (encode oid) = oid` with the arc decoder of the driver (`parseObjectIdentifier`'s split of the first
+    sub-identifier), hence the encoding is injective on the accepted domain. -/
+theorem oid_roundtrip (o : List Nat) (c : Bytes) (h : encOID o = some c) (hok : oidOk o = true) :
+    decOID c = some o := decOID_encOID h hok
+
+theorem oid_encode_injective (o1 o2 : List Nat) (c : Bytes) (h1 : encOID o1 = some c) (h2 : encOID o2 = some c)
+    (k1 : oidOk o1 = true) (k2 : oidOk o2 = true) : o1 = o2 := encOID_inj h1 h2 k1 k2
+
+example : encOID [1, 3, 6, 1, 4, 1, 11129, 2, 4, 2] = some [0x2b, 6, 1, 4, 1, 0xd6, 0x79, 2, 4, 2]
+    ∧ oidOk [1, 3, 6, 1, 4, 1, 11129, 2, 4, 2] = true := by decide
+
+/-- T1: every OID of the native EKU table is inside that domain. -/
+theorem native_eku_oids_ok : ZV.Generated.C04.nativeEku.all (fun p => oidOk p.2) = true := by decide
+
+/-! ### the list-valued extensions -/
+
+/-- ExtKeyUsage: the `SEQUENCE OF OBJECT IDENTIFIER` the builder writes for ANY list of OIDs parses back to the list of
+    their content octets, in order (`oidContents oids`, whose elements decode to the OIDs by `oid_roundtrip`). -/
+theorem ext_roundtrip_eku (oids : List (List Nat)) (body : Bytes) (h : encOIDs oids = some body)
+    (hok : ∀ o ∈ oids, oidOk o = true) (hlen : (tlv 0x30 body).length < 2147483648) :
+    parseEKU (tlv 0x30 body) = .ok (oidContents oids) ∧ oids.map encOID = (oidContents oids).map some :=
+  ⟨parseEKU_build oids body h hok hlen, (encOIDs_eq oids body h).1⟩
+
+example : encOIDs [[1, 3, 6, 1, 5, 5, 7, 3, 1], [2, 5, 29, 37, 0]]
+      = some [6, 8, 0x2b, 6, 1, 5, 5, 7, 3, 1, 6, 4, 0x55, 0x1d, 0x25, 0] ∧
+    (∀ o ∈ [[1, 3, 6, 1, 5, 5, 7, 3, 1], [2, 5, 29, 37, 0]], oidOk o = true) := by decide
+
+/-- **GeneralNames**: any sequence of rfc822Name / dNSName / URI (IA5 strings carried as octets) and iPAddress names
+    (4 or 16 octets) written as `[1] [2] [6] [7]` primitives parses back into the four lists, each in input order. -/
+theorem general_names_roundtrip (l : List GName) (hok : ∀ g ∈ l, g.ok = true)
+    (hlen : (encGNames l).length < 2147483648) :
+    parseSAN (encGNames l) = .ok (l.foldl SAN.add ⟨[], [], [], []⟩) := parseSAN_enc l hok hlen
+
+example : (∀ g ∈ [GName.uri [0x61], GName.dns [0x62], GName.ip [10, 0, 0, 1], GName.email [0x63]], g.ok = true) ∧
+    [GName.uri [0x61], GName.dns [0x62], GName.ip [10, 0, 0, 1], GName.email [0x63]].foldl SAN.add ⟨[], [], [], []⟩
+      = ⟨[[0x62]], [[0x63]], [[0x61]], [[10, 0, 0, 1]]⟩ := by decide
+
+/-- **subjectAltName** as `marshalSANs` builds it (DNS names, then e-mail addresses, then IP addresses after
+    `To4`): parses back to the same DNS and e-mail lists, no URIs, and the NORMALISED addresses `ips.map to4` — a
+    16-octet IPv4-mapped input comes back as 4 octets (`san_ip_to4`).  Domain: every address has 4 or 16 octets
+    after `To4` (any other length is written as is and rejected by the parser). -/
+theorem ext_roundtrip_san (dns email ips : List Bytes)
+    (hip : ∀ ip ∈ ips, (to4 ip).length = 4 ∨ (to4 ip).length = 16)
+    (hlen : (buildSAN dns email ips).length < 2147483648) :
+    parseSAN (buildSAN dns email ips) = .ok ⟨dns, email, [], ips.map to4⟩ := parseSAN_build dns email ips hip hlen
+
+/-- the address-length condition of `ext_roundtrip_san` is exact: the parse result is `ok` with the normalised lists
+    iff every address has 4 or 16 octets after `To4`, and a parse ERROR otherwise (the builder writes such an address
+    as is; `CreateCertificate` then produces a certificate `ParseCertificate` rejects). -/
+theorem san_ip_domain_exact (dns email ips : List Bytes) (hlen : (buildSAN dns email ips).length < 2147483648) :
+    parseSAN (buildSAN dns email ips) =
+      if ips.all (fun ip => (to4 ip).length == 4 || (to4 ip).length == 16) then .ok ⟨dns, email, [], ips.map to4⟩
+      else .err := by
+  split
+  · rename_i h
+    exact parseSAN_build dns email ips (fun ip hm => by simpa using List.all_eq_true.mp h ip hm) hlen
+  · rename_i h
+    apply parseSAN_build_bad dns email ips _ hlen
+    have h' : ips.any (fun ip => !((to4 ip).length == 4 || (to4 ip).length == 16)) = true := by
+      cases ha : ips.any (fun ip => !((to4 ip).length == 4 || (to4 ip).length == 16)) with
+      | true => rfl
+      | false =>
+        exfalso; apply h
+        rw [List.all_eq_true]
+        intro ip hm
+        have := List.any_eq_false.mp ha ip hm
+        cases hb : ((to4 ip).length == 4 || (to4 ip).length == 16) with
+        | true => rfl
+        | false => simp [hb] at this
+    obtain ⟨ip, hm, hb⟩ := List.any_eq_true.mp h'
+    exact ⟨ip, hm, by simpa using hb⟩
+
+example : parseSAN (buildSAN [] [] [[1, 2, 3, 4, 5]]) = .err := by decide
+
+/-- the `To4` normalisation: `::ffff:a.b.c.d` (16 octets) becomes `a.b.c.d` (4 octets); every address without that
+    prefix, of any length, is left alone; lengths 4/16 stay inside 4/16. -/
+theorem san_ip_to4 (a b c d : UInt8) (ip : Bytes) :
+    to4 [0, 0, 0, 0, 0, 0, 0, 0, 0, 0, 0xff, 0xff, a, b, c, d] = [a, b, c, d] ∧
+    (¬ (ip.length = 16 ∧ ip.take 12 = [0, 0, 0, 0, 0, 0, 0, 0, 0, 0, 0xff, 0xff]) → to4 ip = ip) ∧
+    (ip.length = 4 ∨ ip.length = 16 → (to4 ip).length = 4 ∨ (to4 ip).length = 16) :=
+  ⟨to4_mapped a b c d, to4_other ip, to4_length ip⟩
+
+example : parseSAN (buildSAN [[0x61, 0x2e, 0x62]] [] [[0, 0, 0, 0, 0, 0, 0, 0, 0, 0, 0xff, 0xff, 192, 0, 2, 1]])
+    = .ok ⟨[[0x61, 0x2e, 0x62]], [], [], [[192, 0, 2, 1]]⟩ := by decide
+
+/-- AuthorityInfoAccess: the builder never fails, and `(OCSPServer, IssuingCertificateURL)` come back unchanged, in
+    order, for all lists of locations. -/
+theorem ext_roundtrip_aia (ocsp issuing : List Bytes) :
+    ∃ v, buildAIA ocsp issuing = some v ∧ (v.length < 2147483648 → parseAIA v = .ok (ocsp, issuing)) :=
+  ⟨_, buildAIA_eq ocsp issuing, fun hl => parseAIA_build ocsp issuing _ (buildAIA_eq ocsp issuing) hl⟩
+
+/-- CRLDistributionPoints: one `DistributionPoint { [0] { [0] { [6] url } } }` per URL, parsed back to the URL list. -/
+theorem ext_roundtrip_crldp (urls : List Bytes) (hlen : (buildCRLDP urls).length < 2147483648) :
+    parseCRLDP (buildCRLDP urls) = .ok urls := parseCRLDP_build urls hlen
+
+/-- CertificatePolicies: the policy identifiers come back as their content octets, in order. -/
+theorem ext_roundtrip_policies (ps : List (List Nat)) (v : Bytes) (h : buildPolicies ps = some v)
+    (hok : ∀ o ∈ ps, oidOk o = true) (hlen : v.length < 2147483648) :
+    parsePolicies v = .ok (oidContents ps) := parsePolicies_build ps v h hok hlen
+
+example : buildPolicies [[2, 23, 140, 1, 2, 1]] = some [0x30, 10, 0x30, 8, 6, 6, 0x67, 0x81, 0x0c, 1, 2, 1]
+    ∧ oidOk [2, 23, 140, 1, 2, 1] = true := by decide
+
+/-! ### the assembled extension list -/
+
+/-- **build_parse_all**: for every template of the documented domain (`Tmpl.inDomain`: nine key-usage bits, 64-bit
+    path length, OID arcs within MaxInt32, 4/16-octet addresses; extension values shorter than 2 GiB), running the
+    extension loop of `parseCertificate` over the list `buildExtensions` assembled equals: start from the field vector
+    `expected` of the generated extensions (every template field, normalised; zero where `ExtraExtensions` overrides
+    the builder, by `extra_override`) and apply the extra extensions. -/
+theorem build_parse_all (tbl : List (Nat × List Nat)) (t : Tmpl) (exts : List Ext)
+    (h : buildExtensions tbl t = .ok exts) (hd : t.inDomain tbl = true)
+    (hsz : ∀ x ∈ exts, x.value.length < 2147483648) :
+    applyExts {} exts = applyExts (expected tbl t) t.extra := applyExts_buildExtensions tbl t h hd hsz
+
+/-- … and when no extra extension carries one of the nine modelled OIDs, the result is exactly the template's field
+    vector. -/
+theorem build_parse_all_plain (tbl : List (Nat × List Nat)) (t : Tmpl) (exts : List Ext)
+    (h : buildExtensions tbl t = .ok exts) (hd : t.inDomain tbl = true)
+    (hsz : ∀ x ∈ exts, x.value.length < 2147483648) (hx : ∀ x ∈ t.extra, x.oid ∉ modelled) :
+    applyExts {} exts = .ok (templateFields tbl t) := by
+  rw [build_parse_all tbl t exts h hd hsz, applyExts_other _ _ hx, expected_eq_templateFields tbl t hx]
+
+/-- a template exercising every builder, with an unmodelled extra extension -/
+def sampleTmpl : Tmpl :=
+  { keyUsage := 5, eku := (ZV.Generated.C04.nativeEku.take 1).map (·.1), unknownEku := [[1, 2, 3]], bcValid := true, isCA := true, maxPathLen := 300,
+    maxPathLenZero := false, ski := [1, 2], aki := [3], ocsp := [[0x68]], issuing := [[0x69]], dns := [[0x61]],
+    email := [[0x62]], ips := [[0, 0, 0, 0, 0, 0, 0, 0, 0, 0, 0xff, 0xff, 10, 0, 0, 1]], policies := [[2, 5, 29, 32, 0]],
+    nc := some (true, [0x30, 0]), crldp := [[0x6a]], extra := [⟨[1, 2, 3, 4], false, [5, 0]⟩] }
+
+example : sampleTmpl.inDomain ZV.Generated.C04.nativeEku = true ∧
+    (∀ x ∈ sampleTmpl.extra, x.oid ∉ modelled) ∧
+    (buildExtensions ZV.Generated.C04.nativeEku sampleTmpl).map
+      (fun exts => exts.length == 11 && exts.all (fun x => decide (x.value.length < 2147483648))) = .ok true := by
+  decide
 
 end ZV.C04
